@@ -24,7 +24,8 @@ CONSTANTS
   StaleClose = ${18}
   NoWatcher = ${19}
   InitBeforeCheck = ${20}
-INVARIANTS TypeOK AtMostOneDisc RegisterOnce DiscSeesDisconnected NoCrash OwnClose ClosedForACause GoneAfterDisc WireOrdered AllWritten
+  EarlyUnlock = ${23:-FALSE}
+INVARIANTS ${INVS:-TypeOK AtMostOneDisc RegisterOnce DiscSeesDisconnected NoCrash OwnClose ClosedForACause GoneAfterDisc WireOrdered AllWritten}
 ${22}
 CHECK_DEADLOCK FALSE
 EOF2
@@ -57,6 +58,12 @@ mkcfg MCConn_t_rc_handler.cfg       2  1  1  1  "$N"  "$N" 0  TRUE  TRUE  TRUE  
 mkcfg MCConn_t_rc_other.cfg         2  1  1  1  "$N"  "$N" 0  TRUE  TRUE  TRUE  FALSE FALSE other  FALSE FALSE FALSE FALSE FALSE FALSE SafetySpec ""
 mkcfg MCConn_t_rc3.cfg              3  1  1  0  "$N"  "$N" 0  TRUE  TRUE  FALSE FALSE FALSE handler FALSE FALSE FALSE FALSE FALSE FALSE SafetySpec ""
 mkcfg MCConn_t_out.cfg              1  2  0  0  "$N" '{"s1","s2"}' 3 TRUE FALSE FALSE FALSE FALSE none FALSE FALSE FALSE FALSE FALSE FALSE SafetySpec ""
+# eager reconnect: Connect from another goroutine as soon as the client is disconnected (it waits for the lock the teardown holds).
+# Connected() may then be true again while DISCONNECTED handlers run - the user's own doing: DiscSeesDisconnected is not claimed here
+EAGER_INVS="TypeOK AtMostOneDisc RegisterOnce NoCrash OwnClose ClosedForACause GoneAfterDisc WireOrdered AllWritten"
+INVS="$EAGER_INVS" mkcfg MCConn_q_rc_eager.cfg    2  1  0  0  "$N"  "$N" 0  TRUE  TRUE  FALSE FALSE FALSE eager  FALSE FALSE FALSE FALSE FALSE FALSE Spec "$LIVE"
+INVS="$EAGER_INVS" mkcfg MCConn_t_rc_eager.cfg    2  1  1  0  "$U1" "$N" 0  TRUE  TRUE  FALSE FALSE FALSE eager  FALSE FALSE FALSE FALSE FALSE FALSE SafetySpec ""
+INVS="$EAGER_INVS" mkcfg MCConn_defect_earlyunlock.cfg 2 1 0 0 "$N" "$N" 0 TRUE TRUE FALSE FALSE FALSE eager FALSE FALSE FALSE FALSE FALSE FALSE Spec "$LIVE" TRUE
 # defect variants: TLC must report a violation (sensitivity of the model, DESIGN 6.4)
 mkcfg MCConn_defect_drainonce.cfg   1  1  3  2  "$U1" "$N" 0  TRUE  TRUE  FALSE FALSE FALSE none   FALSE FALSE TRUE  FALSE FALSE FALSE Spec "$LIVE"
 mkcfg MCConn_defect_staleclose.cfg  2  1  1  0  "$N"  "$N" 0  TRUE  TRUE  FALSE FALSE FALSE handler FALSE FALSE FALSE TRUE FALSE FALSE Spec "$LIVE"
